@@ -821,6 +821,12 @@ private:
   // year ~2300; the floor rejects non-positive timestamps.
   static constexpr std::int64_t kMaxPlausibleEpochMs = 10'413'792'000'000LL;
 
+  // Largest totalLen writeLogEntry() can produce for a key/value pair accepted by
+  // validateKeyValue(): op(1) + keyLen(4) + key + expiry(8) + valLen(4) + value +
+  // crc(4). Replay must accept every record up to this size.
+  static constexpr std::uint32_t kMaxLogRecordLength =
+      1 + 4 + MAX_KEY_LENGTH + 8 + 4 + MAX_VALUE_LENGTH + 4;
+
   static std::chrono::system_clock::time_point kNoExpiry()
   {
     return std::chrono::system_clock::time_point::max();
@@ -1441,7 +1447,7 @@ private:
     {
       uint32_t totalLen = 0;
       if (!log.read(reinterpret_cast<char *>(&totalLen), sizeof(totalLen)) || totalLen < 10 ||
-          totalLen > 100 * 1024 * 1024)
+          totalLen > kMaxLogRecordLength)
       {
         break; // Invalid or corrupted entry
       }
